@@ -160,3 +160,26 @@ def parallel(cmds, timeout=None):
                     still.append((i, p, t0))
         running = still
     return results
+
+
+def run_group(cmd, env=None, cwd=None, timeout=None, stdout=subprocess.PIPE, stderr=subprocess.PIPE, preexec_fn=None):
+    """subprocess.run replacement that kills the whole process group on timeout (compile
+    drivers spawn the code generator and gcc). Raises subprocess.TimeoutExpired like run."""
+    import signal
+
+    def pre():
+        os.setsid()
+        if preexec_fn:
+            preexec_fn()
+
+    proc = subprocess.Popen(cmd, env=env, cwd=cwd, stdout=stdout, stderr=stderr, preexec_fn=pre)
+    try:
+        out, err = proc.communicate(timeout=timeout)
+    except subprocess.TimeoutExpired:
+        try:
+            os.killpg(proc.pid, signal.SIGKILL)
+        except ProcessLookupError:
+            pass
+        proc.communicate()
+        raise
+    return subprocess.CompletedProcess(cmd, proc.returncode, out, err)
